@@ -1,4 +1,5 @@
 """C20 — comments reach docstrings intact; whitespace clean-up never changes code meaning."""
+import glob, json, os
 from .. import env, coq, gen, apigen, apis
 from . import c20_t0, c20_fixws as FW, c20_wrap as W, c20_doc as D
 
@@ -16,7 +17,8 @@ TRUSTED = [
     "Model/FixWs.v: hand-written model of formatter.fix_whitespace: the three regexes as continuation-passing backtracking matchers "
     "(greedy, alternatives left to right), re.sub as the leftmost non-overlapping scan, str.rstrip; tied by T0 (regex literals) and T2",
     "Model/Wrap.v: hand-written model of lines.wrap line by line (replace, first-line split, colon rule, textwrap.wrap call, list test, slice, "
-    "tokenisation, fill with indents, join, rstrip), of rst's plain path and quote guard, of Metadata.doc, and of CPython's textwrap as used "
+    "tokenisation, fill with indents, join, rstrip; with the prologue expandtabs + lstrip of blanks of fix 6b1479c), of rst's plain path and tail "
+    "(terminator escaping, backslash padding, quote guard of fix c174597), of Metadata.doc, and of CPython's textwrap as used "
     "(expandtabs, whitespace translation, chunk split, _wrap_chunks with drop_whitespace and break_long_words=False); tied by T0 (regex literals, "
     "textwrap keyword arguments, the 0.75 constant) and T2",
     "contract: Python's re.sub / str methods / textwrap behave as the models say for ASCII text (validated on every run by T2, textwrap separately)",
@@ -29,10 +31,12 @@ TRUSTED = [
 ASSUMES = [
     "ASCII text (DESIGN 4.1): the theorems hold for every byte string of the model, the model corresponds to Python only on ASCII; "
     "non-ASCII texts go through the direct oracle only",
-    "wrap: offset < width (the property's quantifier); words are str.split() words",
-    "wrap_words_preserved_partial / wrap_width_bound_partial carry no hypothesis but are partial (see Proofs/Wrap.v, Proofs/WrapWidth.v): the "
-    "first-line slice is not covered; outside first_line_safe the faithful model loses text (wrap_tab_refuted, wrap_leading_ws_refuted, "
-    "wrap_blank_first_line_refuted)",
+    "wrap: words are str.split() words; C20_wrap_words_preserved carries no hypothesis (every text, width, offset, indent for which wrap returns); "
+    "C20_wrap_width_bound_partial is partial (bound proved for the first line and for every line of every filled token, not restated over "
+    "result.split('\\n'))",
+    "rst: docstring safety is stated at the level of CPython's tokenizer for raw triple-quoted literals (dq_scan in Model/Wrap.v: a backslash takes "
+    "the next character, three unescaped quotes end the literal); 'no three consecutive quotes' is false of the code (C20_rst_no_triple_quote_substring_refuted: "
+    "five quotes) and harmless; the oracle checks the same thing with ast.parse on r\"\"\"<result>\"\"\"; pandoc's output is not modelled, only the shared tail of rst",
 ]
 
 
@@ -44,7 +48,9 @@ def regen(ctx):
 PIN_NAMES = ["fix_whitespace: the three re.sub patterns and replacement templates, in order", "lines.NUMBERED_LIST_REGEX",
              "wrap: the colon re.sub pattern and template", "wrap: keyword arguments of the textwrap.wrap call",
              "wrap: keyword arguments of the textwrap.fill call", "wrap: numeric constants (0, 0.75, 1)",
-             "rst: the re.search pattern and the arguments of the wrap call"]
+             "rst: the re.search pattern and the arguments of the wrap call",
+             "wrap: the prologue text.expandtabs().lstrip(blanks), blanks = the class is_lblank of the model",
+             "rst: the literal replace, the endswith tests and the appended strings of its tail"]
 
 
 def pins(ctx):
@@ -94,11 +100,11 @@ def run_pure(ctx):
 
 # ---------------------------------------------------------------- end to end
 def grammar_comments(r):
-    """Benign comments from the grammar (no triple quote, no backslash, no pandoc trigger, no TAB / leading blank: those have their own cases)."""
+    """Comments from the grammar (quotes, backslashes, TABs included; no pandoc trigger: pandoc is not modelled; no \\r \\f \\x1c)."""
     def one():
         for _ in range(50):
             t = W.gen_text(r).strip()
-            if t and not any(ch in t for ch in '\\"|*`_[]\t\x1c\x1d\r\x0c') and t.isascii():
+            if t and not any(ch in t for ch in '|*`_[]\x1c\x1d\r\x0c') and t.isascii():
                 return t
         return "Plain words only."
     return {tgt: one() for tgt, _ in D.TARGETS}
@@ -203,19 +209,32 @@ def run_e2e(ctx, jobs=None, conventional=None):
     ctx.notes["e2e"] = {"generations": len(reqs), "fix_whitespace_inputs": len(fw_tagged), "wrap_calls": len(wrap_cases), "rst_calls": len(rst_cases_)}
 
 
+def corpus():
+    out = []
+    for p in sorted(glob.glob(os.path.join(env.VERIF, "corpus", "C20", "*.json"))):
+        c = json.load(open(p))
+        c["corpus_file"] = os.path.basename(p)
+        out.append(c)
+    return out
+
+
 def witnesses(ctx):
-    """The _refuted witnesses of Proofs/WrapWidth.v replayed on the implementation (each is a finding while it fails)."""
-    W.run_wrap(ctx, [("a\tb cccc dddd eeee", 12, 0, 0), ("  ab cd", 3, 0, 0), ("    ", 3, 0, 0)], kind="witness")
+    """corpus/C20 first: the witnesses of the six former findings (fixed by 6b1479c and c174597) — a violation here means one is back."""
+    cs = corpus()
+    ws = [c for c in cs if c["kind"] == "wrap"]
+    checks = W.run_wrap(ctx, [(c["text"], c["width"], c["offset"], c["indent"]) for c in ws], kind="corpus")
+    FW.evaluate(ctx, "c20corpus", "wrap on the former witnesses kept in corpus/C20", checks)
+    return [("corpus:" + c["corpus_file"], {**D.BENIGN, **c["comments"]}, next(iter(c["comments"].items()))) for c in cs if c["kind"] == "e2e"]
 
 
 def run(ctx):
     import time
     t0 = time.time()
     pins(ctx)
-    witnesses(ctx)
+    corpus_jobs = witnesses(ctx)
     run_pure(ctx)
     t1 = time.time()
-    run_e2e(ctx)
+    run_e2e(ctx, jobs=corpus_jobs + e2e_jobs(ctx))
     ctx.notes["seconds"] = {"coq_stage": round(t0 - ctx.t0, 1), "pure": round(t1 - t0, 1), "e2e": round(time.time() - t1, 1)}
     novel_first(ctx)
 
